@@ -34,7 +34,7 @@ R5_COMPARE = {"lt": ast.Lt, "le": ast.LtE, "eq": ast.Eq, "ne": ast.NotEq, "gt": 
 # expression: no entry either.
 R5_SUBSCRIPT = {"getitem"}
 AST_CLASSES = [ast.AST, ast.stmt, ast.expr, ast.Call, ast.Attribute, ast.Name, ast.Constant, ast.BinOp, ast.UnaryOp, ast.Compare, ast.Subscript, ast.Delete,
-               ast.If, ast.While, ast.Try, ast.ExceptHandler, ast.FunctionDef, ast.AsyncFunctionDef, ast.Expr, ast.Global, ast.Load, ast.Del, ast.In, *TERMINATORS,
+               ast.If, ast.While, ast.Try, ast.ExceptHandler, ast.FunctionDef, ast.AsyncFunctionDef, ast.Expr, ast.Global, ast.Pass, ast.Load, ast.Del, ast.In, *TERMINATORS,
                *set(R5_BINOP.values()), *set(R5_UNARY.values()), *set(R5_COMPARE.values())]
 
 
@@ -68,7 +68,7 @@ def setup(eng, st):
     eng.models[id(ast.copy_location)] = Model("ast.copy_location", lambda e, s, a, k: iter([(s, a[0])]))  # copies only position attributes
     lid = eng.class_id(list)
     is_list = lambda v: (z3.And(V.is_ref(v), V.cls_of(V.Val.a(v)) == lid), list)  # noqa: E731
-    for cname, f in (("Call", "args"), ("If", "body"), ("If", "orelse"), ("While", "body"), ("While", "orelse"), ("Try", "body"), ("Try", "orelse"),
+    for cname, f in (("Call", "args"), ("Call", "keywords"), ("If", "body"), ("If", "orelse"), ("While", "body"), ("While", "orelse"), ("Try", "body"), ("Try", "orelse"),
                      ("Try", "finalbody"), ("Try", "handlers"), ("ExceptHandler", "body"), ("FunctionDef", "body"), ("FunctionDef", "decorator_list"),
                      ("AsyncFunctionDef", "body"), ("AsyncFunctionDef", "decorator_list"), ("Global", "names")):
         eng.field_types[(cname, f)] = is_list
@@ -151,8 +151,12 @@ def build(active_known=frozenset()):
     def args(a):
         return lst(a.pre.st, fld(a.pre.st, a.node, "args"))
 
-    c.requires("the call has the arity of the operator function (2 operands; 1 for not_/inv/invert)",
-               lambda a: z3.If(z3.Or(*[attr_is(a, k) for k in R5_UNARY]), z3.Length(args(a)) == 1, z3.Length(args(a)) == 2))
+    def kwargs(a):
+        return lst(a.pre.st, fld(a.pre.st, a.node, "keywords"))
+
+    c.requires("the call has the arity of the operator function (2 operands; 1 for not_/inv/invert) and no keyword arguments",
+               lambda a: z3.And(z3.If(z3.Or(*[attr_is(a, k) for k in R5_UNARY]), z3.Length(args(a)) == 1, z3.Length(args(a)) == 2),
+                                exact(a.eng, fld(a.pre.st, a.node, "keywords"), list), z3.Length(kwargs(a)) == 0))
     if "C15-is-to-eq" in active_known:
         c.requires("[carve-out of known finding C15-is-to-eq] operator.is_/is_not is not applied to a non-singleton constant operand",
                    lambda a: z3.Implies(z3.Or(attr_is(a, "is_"), attr_is(a, "is_not")),
@@ -204,6 +208,18 @@ def build(active_known=frozenset()):
     c.ensures("a call with the wrong number of operands is returned unchanged", lambda a: a.result == a.node)
     c.replay(rp_r5)
     c.replay_without_model = True
+
+    # the functions of the operator module take no keyword arguments: such a call raises TypeError when executed, and
+    # "the same operands" cannot be kept by an operator expression, so it is not one of the catalogue's rewrites either
+    c = pack.contract(f"{mod}:_optimize_operator_call_attr")
+    c.label = "keyword arguments"
+    c.param("fn", OBJ(ast.Attribute)).param("node", OBJ(ast.Call))
+    c.setup(setup)
+    c.requires("the call passes at least one keyword argument", lambda a: z3.And(exact(a.eng, fld(a.pre.st, a.node, "keywords"), list), z3.Length(kwargs(a)) > 0))
+    c.raises()
+    c.ensures("a call with keyword arguments is returned unchanged", lambda a: a.result == a.node)
+    c.replay(rp_r5)
+    c.replay_without_model = True
     add_visitors(pack, active_known)
     return pack
 
@@ -229,6 +245,11 @@ def add_visitors(pack, active_known):
             s.ghost["gv_in"] = s.copy()
             e.havoc_heap(s, [f for f in CHILD_FIELDS])
             s.lists = z3.Const(V.fresh_name("lists_after_generic_visit"), s.lists.sort())
+            g0 = s.ghost["gv_in"]
+            nd = e.lift(node, s)
+            for f in CHILD_FIELDS:
+                # (old_value[:] = new_values: a field holding a list keeps the list object, whose content is rebuilt)
+                s.assume(z3.Implies(exact(e, fld(g0, nd, f), list), fld(s, nd, f) == fld(g0, nd, f)))
             s.ghost["gv"] = s.copy()
             yield s, node
 
@@ -281,9 +302,25 @@ def add_visitors(pack, active_known):
 
     # ---- visit_Try
     c = visitor("visit_Try", ast.Try, bodies=("body", "orelse", "finalbody"))
-    c.ensures("a Try with the same handlers whose body, orelse and finalbody are R2-filtered",
-              lambda a: z3.And(exact(a.eng, a.result, ast.Try), fld(a.post.st, a.result, "handlers") == fld(gv(a), a.node, "handlers"),
-                               *[filtered(a, fld(a.post.st, a.result, f), fld(gv(a), a.node, f)) for f in ("body", "orelse", "finalbody")]))
+    c.requires("the node is a try statement as Python builds it: handlers and finalbody are lists",
+               lambda a: z3.And(*[z3.And(exact(a.eng, fld(a.pre.st, a.node, f), list), a.eng.external_ref_fact(a.pre.st, fld(a.pre.st, a.node, f))) for f in ("handlers", "finalbody")]))
+
+    def try_post(a):
+        g, st, r = gv(a), a.post.st, a.result
+        H, F = lst(g, fld(g, a.node, "handlers")), lst(g, fld(g, a.node, "finalbody"))
+        RF = lst(st, fld(st, r, "finalbody"))
+        # (the R2-filter of a list is empty exactly when the list is empty)
+        bare = z3.And(z3.Length(H) == 0, z3.Length(F) == 0)
+        return z3.And(exact(a.eng, r, ast.Try), fld(st, r, "handlers") == fld(g, a.node, "handlers"),
+                      *[filtered(a, fld(st, r, f), fld(g, a.node, f)) for f in ("body", "orelse")],
+                      z3.If(bare, z3.And(z3.Length(RF) == 1, exact(a.eng, RF[0], ast.Pass)), filter_spec(a.eng, RF, F)))
+
+    c.ensures("a Try with the same handlers whose body, orelse and finalbody are R2-filtered; where that would leave a try with neither a handler "
+              "nor a finally clause (every statement of the finally clause was a bare constant or name), a single `pass` stands for the dropped "
+              "statements, so that the result is still a statement Python compiles", try_post)
+    c.replay(lambda m, ctx, ob: combine_replays(R4_REPLAY, TRY_REPLAY))
+    c.ensures("the result has a handler or a non-empty finally clause, as Python requires of a try statement",
+              lambda a: z3.Or(z3.Length(lst(a.post.st, fld(a.post.st, a.result, "handlers"))) > 0, z3.Length(lst(a.post.st, fld(a.post.st, a.result, "finalbody"))) > 0))
 
     # ---- visit_ExceptHandler
     c = visitor("visit_ExceptHandler", ast.ExceptHandler, bodies=("body",))
@@ -390,6 +427,11 @@ def add_visitors(pack, active_known):
             kk = z3.Const(V.fresh_name("k"), V.Val)
             s.assume(z3.ForAll([kk], z3.Implies(z3.Select(z3.Select(s.sets, V.Val.a(top)), kk), z3.Select(grown, kk))))
             s.sets = z3.Store(s.sets, V.Val.a(top), grown)
+            g0 = s.ghost["gv_in"]
+            nd = e.lift(node, s)
+            for f in CHILD_FIELDS:
+                # (old_value[:] = new_values: a field holding a list keeps the list object, whose content is rebuilt)
+                s.assume(z3.Implies(exact(e, fld(g0, nd, f), list), fld(s, nd, f) == fld(g0, nd, f)))
             s.ghost["gv"] = s.copy()
             yield s, node
 
@@ -598,6 +640,42 @@ print("REPRODUCED" if out[0] != out[1] else "not reproduced")
 '''
 
 
+TRY_REPLAY = r'''
+import ast
+from basilisp.lang.compiler import optimizer
+bad = []
+for name, src in [
+    ("finally holding only a constant", "log = []\ntry:\n    log.append(1)\nfinally:\n    None\n"),
+    ("finally holding only names and constants, in a function", "log = []\ndef f(x):\n    try:\n        log.append(x)\n        return x\n    finally:\n        x\n        5\nlog.append(f(2))\n"),
+    ("finally with an effect", "log = []\ntry:\n    log.append(1)\nfinally:\n    log.append(2)\n    3\n"),
+    ("handler and constant finally", "log = []\ntry:\n    log.append(1)\n    log.nope\nexcept AttributeError:\n    log.append('h')\nfinally:\n    None\n"),
+    ("raise passing through a constant finally", "log = []\ndef f():\n    try:\n        raise KeyError(1)\n    finally:\n        None\ntry:\n    f()\nexcept KeyError:\n    log.append('KeyError')\n"),
+]:
+    out = []
+    for optimise in (False, True):
+        tree = ast.parse(src)
+        try:
+            if optimise:
+                tree = ast.fix_missing_locations(optimizer.PythonASTOptimizer().visit(tree))
+            env = {}
+            exec(compile(tree, "<c15-try>", "exec"), env)
+            out.append(env["log"])
+        except Exception as e:
+            out.append("%s: %s" % (type(e).__name__, e))
+    if out[0] != out[1]:
+        bad.append("%s: unoptimised -> %r, optimised -> %r" % (name, out[0], out[1]))
+for b in bad:
+    print(b)
+print("REPRODUCED" if bad else "not reproduced")
+'''
+
+
+def combine_replays(*scripts):
+    """one witness script out of several: reproduced when any of them reproduces"""
+    return ("import io, contextlib\nhit = False\nfor src in %r:\n    buf = io.StringIO()\n    with contextlib.redirect_stdout(buf):\n        exec(src, {'__name__': '__main__'})\n"
+            "    out = buf.getvalue()\n    print(out, end='')\n    hit = hit or out.strip().splitlines()[-1:] == ['REPRODUCED']\nprint('REPRODUCED' if hit else 'not reproduced')\n" % (list(scripts),))
+
+
 IF_REPLAY = r'''
 import ast
 from basilisp.lang.compiler import optimizer
@@ -646,6 +724,9 @@ for name, call, extra in [
     ("wrong arity in a branch that is not taken", "(OP.add(1) if tr(False) else 'ok')", ""),
     ("wrong arity of a unary operator", "(OP.not_(1, 2) if tr(False) else 'ok')", ""),
     ("wrong arity, executed", "OP.sub(tr(1))", ""),
+    ("keyword argument, executed", "OP.add(tr(1), tr(2), x=tr(3))", ""),
+    ("keyword argument in a branch that is not taken", "(OP.lt(1, 2, **{}) if tr(False) else 'ok')", ""),
+    ("empty ** mapping", "OP.getitem(tr([5, 6]), tr(1), **tr({}))", ""),
     ("is_ with a constant operand", "OP.is_(1.0, 1)", ""),
     ("contains operand order", "OP.contains(tr([1, 2]), tr(1))", ""),
     ("delitem in expression position", "OP.delitem(D, 'a')", "D = {'a': 1}"),
